@@ -289,6 +289,7 @@ String RemoveEscapeChars(const String & s)
       if ((lastWasEscape)||(isEscape == false)) ret += c;
       lastWasEscape = ((isEscape)&&(lastWasEscape == false));
    }
+   if (lastWasEscape) ret += '\\';  // a trailing lone backslash is matched as a literal backslash by SetPattern(), so keep it
    return ret;
 }
 
